@@ -429,17 +429,39 @@ def task_dof(ctx):
             ctx.prove("dof[%r]=3N-%d" % (mode, want), md.n_dof.a.reshape(-1)[0] == 3 * integer("N") - want, pc=p.pc)
             ctx.prove("com-flags[%r]" % (mode,), E.const(md.do_remove_com == (mode is not None) and md.remove_com_angular == (want == 6)))
 
-    def bad():
-        md = _make_basic()
-        md.initialize(_mol(2), remove_com=("rotational", 5))
-        return "accepted"
+    # strings are outside the solver: the guard is decided on an enumerated family of mode strings built FROM the documented
+    # modes (every substring of their concatenations, prefixes, doubled / joined forms, case and blank variants) plus unrelated
+    # words; accepted <=> the normalised string is one of the documented modes
+    valid = ("linear", "angular")
+    fam = {"rotational", "both", "none", "com", "0", "true", "linear,angular", "linear angular", "linearangular", "angularlinear", "linear_", "_angular", "linea", "ngular", " ", ""}
+    for cat in ("linearangular", "angularlinear"):
+        for a in range(len(cat)):
+            for b in range(a + 1, len(cat) + 1):
+                fam.add(cat[a:b])
+    fam |= {v.upper() for v in valid} | {" %s " % v for v in valid} | {v.capitalize() for v in valid}
+    wrongly_accepted, wrongly_rejected = [], []
+    for mode in sorted(fam):
+        def attempt():
+            md = _make_basic()
+            md.initialize(_mol(2), remove_com=(mode, 5))
+            return "accepted"
 
-    ex = ctx.explore(bad, stubs=_S12, name="initialize bad mode")
-    for p in ex.paths:
-        if isinstance(p.raised, ValueError):
-            ctx.ok("unknown-com-mode-rejected", "path-exploration")
-        else:
-            ctx.fail("unknown-com-mode-rejected", "initialize accepted remove_com=('rotational',5): %r" % (p.value,))
+        ex = ctx.explore(attempt, stubs=_S12, name="initialize mode %r" % mode)
+        norm = mode.lower().strip()
+        for p in ex.paths:
+            accepted = p.raised is None
+            if p.raised is not None and not isinstance(p.raised, ValueError):
+                ctx.fail("com-mode[%r].raises-something-else" % mode, repr(p.raised))
+            elif accepted and norm not in valid:
+                wrongly_accepted.append(mode)
+            elif (not accepted) and norm in valid:
+                wrongly_rejected.append(mode)
+    if wrongly_accepted:
+        ctx.fail("unknown-com-mode-rejected", "initialize accepted the undocumented modes %r (of %d tried)" % (wrongly_accepted[:12], len(fam)),
+                 replay={"reproduced": True, "accepted_undocumented_modes": wrongly_accepted[:20], "note": "the enumeration ran the real initialize(); the accepted strings are the failing inputs"})
+    else:
+        ctx.ok("unknown-com-mode-rejected", "enumeration", detail="%d mode strings derived from the documented modes" % len(fam))
+    (ctx.fail("documented-com-modes-accepted", "rejected %r" % wrongly_rejected) if wrongly_rejected else ctx.ok("documented-com-modes-accepted", "enumeration"))
     ctx.undecided_clause("true dof count of linear molecules (the code carries a TODO)")
 
 
